@@ -16,7 +16,7 @@ import numpy
 from . import tlc
 
 DT = {'b': bool, 'i': int, 'f': float, 'c': complex}
-ARGNAMES = {1: 'a1', 2: 'a2', 3: 'a3', 4: 'a4', 5: 'a5', 6: 'a6', 7: 'a7', 8: 'a8', 9: 'a9', 10: 'a10', 11: 'a11', 12: 'a12', 13: 'a13', 14: 'a14'}
+ARGNAMES = {1: 'a1', 2: 'a2', 3: 'a3', 4: 'a4', 5: 'a5', 6: 'a6', 7: 'a7', 8: 'a8', 9: 'a9', 10: 'a10', 11: 'a11', 12: 'a12', 13: 'a13', 14: 'a14', 15: 'a15'}
 
 
 def build(nodes):
@@ -332,18 +332,18 @@ def export(roots):
 # ---------------------------------------------------------------------------
 # environments
 
-ARGSH = {1: [2], 2: [2, 2], 3: [], 4: [3], 5: [2], 6: [2], 7: [2, 2, 2], 8: [3, 3], 9: [4], 10: [2], 11: [], 12: [2, 2], 13: [6], 14: []}
-ARGDT = {1: float, 2: float, 3: float, 4: float, 5: int, 6: bool, 7: float, 8: float, 9: float, 10: complex, 11: complex, 12: complex, 13: float, 14: int}
+ARGSH = {1: [2], 2: [2, 2], 3: [], 4: [3], 5: [2], 6: [2], 7: [2, 2, 2], 8: [3, 3], 9: [4], 10: [2], 11: [], 12: [2, 2], 13: [6], 14: [], 15: [2, 2, 3]}
+ARGDT = {1: float, 2: float, 3: float, 4: float, 5: int, 6: bool, 7: float, 8: float, 9: float, 10: complex, 11: complex, 12: complex, 13: float, 14: int, 15: float}
 
 # integer data per argument id (flat); chosen to avoid ties/kinks where possible.  Complex arguments (10-12) carry
 # 2 * size integers: the real parts followed by the imaginary parts (ArraySem!ArgArr recognises them by that length)
 ENVS = [
     {1: [1, 2], 2: [1, 2, 3, 5], 3: [2], 4: [1, 2, 3], 5: [1, 0], 6: [1, 0], 7: [1, 2, 3, 4, 5, 6, 7, 9], 8: [2, 1, 0, 1, 3, 1, 0, 1, 2], 9: [1, 2, 3, 4],
-     10: [1, 2, 2, -1], 11: [2, 1], 12: [1, 2, 0, 1, 1, 0, -1, 2], 13: [1, 2, -1, 3, 0, 2], 14: [2]},
+     10: [1, 2, 2, -1], 11: [2, 1], 12: [1, 2, 0, 1, 1, 0, -1, 2], 13: [1, 2, -1, 3, 0, 2], 14: [2], 15: [1, 2, 3, 4, 5, 6, 7, 8, 9, -1, -2, -3]},
     {1: [-2, 3], 2: [2, -1, 1, 3], 3: [-3], 4: [-1, 3, 2], 5: [0, 1], 6: [0, 1], 7: [-1, 2, -3, 1, 3, -2, 2, 1], 8: [1, -2, 3, 2, 1, -1, -3, 1, 2], 9: [-2, 1, 3, -1],
-     10: [-1, 3, 1, 4], 11: [-1, 2], 12: [2, -1, 1, 1, 0, 1, 2, -1], 13: [-2, 1, 3, 0, -1, 2], 14: [0]},
+     10: [-1, 3, 1, 4], 11: [-1, 2], 12: [2, -1, 1, 1, 0, 1, 2, -1], 13: [-2, 1, 3, 0, -1, 2], 14: [0], 15: [2, -1, 3, 1, -2, 4, -3, 2, 1, 5, -1, 2]},
     {1: [3, -1], 2: [-3, 1, 2, -2], 3: [-4], 4: [2, -2, 1], 5: [1, 1], 6: [1, 1], 7: [2, -1, 1, 3, -2, 1, -3, 2], 8: [-1, 3, 2, 1, -2, 3, 2, 1, -3], 9: [2, -3, -1, 4],
-     10: [0, -2, -3, 1], 11: [3, -4], 12: [-1, 1, 2, 0, 2, -1, 0, 3], 13: [3, -1, 0, 2, 1, -3], 14: [1]},
+     10: [0, -2, -3, 1], 11: [3, -4], 12: [-1, 1, 2, 0, 2, -1, 0, 3], 13: [3, -1, 0, 2, 1, -3], 14: [1], 15: [-1, 3, 2, -2, 1, 5, 4, -3, 2, 1, 3, -4]},
 ]
 
 
